@@ -195,14 +195,14 @@ def r04_5(run, model, mir):
     run.floor("positive control: explicit panic sites recognised elsewhere in the compiler", ctrl, 50)
 
 
-def r04_7(run, model):
+def r04_7(run, model, only_files=None):
     from lib import bounds as B
     run.rule("R04.7", "hand-written scanners never index past the end: every `bytes[E]` / `tokens[E]` in the lexer's multi-line string scanner, the "
                       "parser input and the query's byte scanning is dominated by a bounds test on E itself (short-circuit `E < len &&`, "
                       "`E >= len ||`, enclosing while/if, or an earlier `if E >= len { exit }` with no increment in between)")
     n = 0
     for rel in ("crates/lexer/src/lib.rs", "crates/parser/src/input.rs", "crates/parser/src/parser.rs", "crates/compiler/src/query.rs", "crates/wasm-app/src/lib.rs"):
-        if rel not in model.src_files():
+        if rel not in model.src_files() or (only_files is not None and rel not in only_files):
             continue
         allf = model.fns(rel)
         for fn in allf:
@@ -233,7 +233,7 @@ def r04_7(run, model):
                 it = S.norm_ws(run.facts.text(rel, x["sp"]))
                 run.ob("R04.7", f"{fn.qual}|{it}", g is not None, site(rel, x["sp"]), f"{it}: {g or 'no bounds test on this index expression dominates the access'}",
                        witness="a text ending in `\\\\line⏎   \\` (half-typed multi-line string): bytes[idx + 1] is read one past the end and the lexer panics")
-    run.floor("guarded index sites in scanners", n, 10)
+    run.floor("guarded index sites in scanners", n, 10 if only_files is None else 3)
 
 
 def fuel_limited_methods(model):
@@ -360,5 +360,6 @@ def run(run, model):
     run.try_rule(c07.r07_5, model)
     run.rule("R04.6", "no cyclic type can be built: shared with C03 R03.2 (occurs before binding; occurs handles every type former)")
     run.try_rule(c03.r03_2, model)
+    run.try_rule(c07.r07_2, model, None, "C04")
     run.assume("Parser::expect consumes an unexpected token unless it is in the recovery set; the analysis treats a failed expect as possibly non-advancing")
     run.assume("recursive grammar calls are summarised pessimistically while in progress; loops nested in a summarised function are treated as zero-or-more iterations")
